@@ -255,7 +255,9 @@ where
 /// Write the summary consumed by the `check` driver.
 pub fn write_summary(cfg: &Config, rep: &Report, rule: &str, required: &[&str], notes: J) {
     let mut inconclusive: Vec<J> = rep.harness_errors.iter().map(|e| J::s(e.clone())).collect();
-    if cfg.only.is_none() {
+    // (non-vacuity is judged on the full-size run; a scaled-down supplementary pass - the
+    // dev-profile re-run at 1/10 of the cases - need not reach every rare class)
+    if cfg.only.is_none() && cfg.scale >= 1.0 {
         for key in required {
             if rep.cov.get(*key).copied().unwrap_or(0) == 0 {
                 inconclusive.push(J::s(format!("required coverage class never observed: {}", key)));
